@@ -72,7 +72,10 @@ def synthetic_roadm_variety(rng):
     profiles = [{'roadm-path-impairments-id': 0, 'roadm-express-path': rng_items('express')},
                 {'roadm-path-impairments-id': 1, 'roadm-add-path': rng_items('add')},
                 {'roadm-path-impairments-id': 2, 'roadm-drop-path': rng_items('drop')},
-                {'roadm-path-impairments-id': 3, 'roadm-express-path': rng_items('express')}]
+                {'roadm-path-impairments-id': 3, 'roadm-express-path': rng_items('express')},
+                # second add and drop profiles (e.g. another add/drop block type): selectable per degree pair
+                {'roadm-path-impairments-id': 4, 'roadm-add-path': rng_items('add')},
+                {'roadm-path-impairments-id': 5, 'roadm-drop-path': rng_items('drop')}]
     if rng.random() < 0.5:
         rng.shuffle(profiles)        # ids identify the profiles, the order of the list carries no meaning
     return {'type_variety': 'vf_impair', POLICIES[0]: G.pick(rng, [-20, -18, 0, -25]), 'add_drop_osnr': 38, 'pmd': 0,
@@ -114,6 +117,15 @@ def build(rng):
                     e['params']['per_degree_impairments'] = [{'from_degree': G.pick(rng, ins),
                                                               'to_degree': G.pick(rng, outs),
                                                               'impairment_id': G.pick(rng, [3, 0, 0])}]
+                    trx = [f for f, t in cx if t == e['uid'] and f.startswith('trx')]
+                    if trx and rng.random() < 0.6:
+                        # the non-default add / drop profile on one (transceiver, line degree) pair, either direction
+                        if rng.random() < 0.5:
+                            e['params']['per_degree_impairments'].append(
+                                {'from_degree': G.pick(rng, ins), 'to_degree': trx[0], 'impairment_id': G.pick(rng, [5, 5, 2])})
+                        else:
+                            e['params']['per_degree_impairments'].append(
+                                {'from_degree': trx[0], 'to_degree': G.pick(rng, outs), 'impairment_id': G.pick(rng, [4, 4, 1])})
     equipment = G.make_equipment(ej)
     network = G.make_network(tj, equipment)
     SimParams.set_params({})
